@@ -80,9 +80,15 @@ func TestRegressionDeleteAllVsApply(t *testing.T) {
 			stats.Violation(check, map[string]any{"schedule": "S=[1 2 3]; DeleteAll([2 3 4]) holds the read lock; " + writer + " queues for the write lock; DeleteAll continues", "problem": "DeleteAll and " + writer + " never returned (deadlock)", "blocked_goroutines": stacks})
 			t.Fatalf("DeleteAll || %s did not finish within %s (deadlock)\n%v", writer, ctl.HangTimeout, stacks)
 		}
-		if !eqContents(removed, []E{2, 3}) {
+		// Apply/Compute only add 7, so DeleteAll removes exactly 2 and 3 in every interleaving; a Replace may take
+		// 2 and 3 away first in an implementation that does not hold a lock across DeleteAll.
+		ok := eqContents(removed, []E{2, 3})
+		if writer == "Replace" {
+			ok = len(minus(removed, []E{2, 3})) == 0
+		}
+		if !ok {
 			stats.Violation(check, map[string]any{"writer": writer, "problem": "DeleteAll([2 3 4]) on [1 2 3] returned " + show(removed)})
-			t.Fatalf("DeleteAll([2 3 4]) on [1 2 3] returned %s, want [2 3]", show(removed))
+			t.Fatalf("DeleteAll([2 3 4]) on [1 2 3] (concurrent %s) returned %s, want [2 3]", writer, show(removed))
 		}
 		stats.Case(check, true, writer, func() any { return map[string]any{"writer": writer} })
 	}
